@@ -324,6 +324,14 @@ func Run[C any](t *testing.T, spec Spec[C]) {
 	t.Helper()
 	start := time.Now()
 	shard := envInt("VERIF_SHARD", 0)
+	// driver self-test: die once without a verdict (the driver must retry the shard)
+	if marker := os.Getenv("VERIF_SELFTEST_DIE_ONCE"); marker != "" && shard == 0 {
+		if _, err := os.Stat(marker); err != nil {
+			_ = os.WriteFile(marker, []byte("died"), 0o644)
+			fmt.Println("fatal error: simulated death outside the code under test")
+			os.Exit(2)
+		}
+	}
 	known := loadKnown(spec.Property)
 	s := &stats{
 		Property: spec.Property, Unit: spec.Unit, Shard: shard, Tier: Tier(), Rule: spec.Rule,
